@@ -113,6 +113,8 @@ def cases(draw, n_classes=3, n_objects=4):
 
 
 def run_task(task):
+    from vlib import specgen as _sg
+    _sg.set_tier(task.get("_tier"))
     res = TaskResult()
     try:
         hyp.campaign(cases(), lambda c: check_case(c, res), task["n"], task["seed"], res,
